@@ -9,7 +9,9 @@
      k = "grp"  a data group: start marker (type FE), data lines, end marker (type FF); runs = the data lines
    Payload bytes are SYMBOLIC: a run <<id0, n, ty, offs, len>> stands for n data lines with ids id0..id0+n-1,
    tag type ty, each carrying len payload bytes, line j (0-based) at 16-bit offset offs + j*len.  The address of a
-   line inside its section is (ty - first tag type of the section) * PAGE + offset.  Results list line ids
+   line inside its section is FLAT: (ty - first tag type of the section) * PAGE + offset, and its extent address ..
+   address + len - 1 may run past the end of the page the line starts in (a line that straddles a page boundary).
+   Results list line ids
    ("id runs" <<id0, n>> = ids id0..id0+n-1, always normalised to maximal runs of consecutive ids).
 
    dev = [drop, retain] are the deviation switches (what the code does when TRUE):
